@@ -192,7 +192,7 @@ func runHistory(t *testing.T, r *ev.Run, seed int64, p Params) (failed bool) {
 			failed = true
 		}
 	}()
-	synctest.Test(t, func(t *testing.T) {
+	watchedBubble(t, 240*time.Second, func(t *testing.T) {
 		rng := rand.New(rand.NewSource(seed))
 		h := &hist{r: r, p: p, rng: rng, seed: seed, svc: "svc", prod: "prod"}
 		h.c3 = newC03()
